@@ -124,7 +124,17 @@ TraceThresholdBig ==
                   e.c[f][i][1] <= e.c[f][i + 1][1]>>,
              <<"C02.scalar_matches_vector", e.exc # "" \/ e.scalar_same>>}))
 
-Next == TraceNew \/ TraceThreshold \/ TraceThresholdEmpty \/ TraceThresholdBig
+(* history: the caller re-assigns the configuration attributes of a live object (as enum members  *)
+(* or as the plain strings the label type compares equal to)                                      *)
+TraceSetConfig ==
+  /\ IsEvent("SetConfig")
+  /\ LET e == Log[l]
+         o == [store[e.h] EXCEPT !.sc = e.sc, !.ec = e.ec]
+     IN /\ store' = (e.h :> o) @@ store
+        /\ Report(e, Failing({<<"C02.raised", e.exc = "">>,
+                              <<"C02.state_after_assigning_configuration", e.exc # "" \/ ObjOfRec(e.post) = o>>}))
+
+Next == TraceNew \/ TraceThreshold \/ TraceThresholdEmpty \/ TraceThresholdBig \/ TraceSetConfig
 Spec == Init /\ [][Next]_vars
 AllConsumed == TLCGet("stats").diameter - 1 = Len(Log)
 =============================================================================
